@@ -10,6 +10,7 @@ import (
 	"strconv"
 	"strings"
 	"sync"
+	"sync/atomic"
 	"time"
 )
 
@@ -40,6 +41,7 @@ type Solver struct {
 	timeout int
 	Log     io.Writer
 	dead    bool
+	killed  atomic.Bool   // the watchdog ended the process at its CPU limit (a timeout, not an error)
 	forkCPU time.Duration // CPU time of accounted forks
 	lastCPU time.Duration // last reading of the process CPU time
 	// Stretched counts the queries asked again with a longer timeout because the solver had been given less
@@ -97,6 +99,9 @@ func (s *Solver) Account(f *Solver) {
 	s.Errors = append(s.Errors, f.Errors...)
 }
 
+// Timeout returns the nominal per-query budget in milliseconds.
+func (s *Solver) Timeout() int { return s.timeout }
+
 func (s *Solver) SetTimeout(ms int) {
 	if s.Kind != "cvc5" && ms != s.timeout {
 		s.send(fmt.Sprintf("(set-option :timeout %d)\n", ms))
@@ -127,7 +132,9 @@ func (s *Solver) send(txt string) {
 	}
 	if _, err := io.WriteString(s.in, txt); err != nil {
 		s.dead = true
-		s.Errors = append(s.Errors, "write: "+err.Error())
+		if !s.killed.Load() {
+			s.Errors = append(s.Errors, "write: "+err.Error())
+		}
 	}
 }
 
@@ -277,6 +284,10 @@ func (s *Solver) readLine() string {
 	line, err := s.out.ReadString('\n')
 	if err != nil {
 		s.dead = true
+		if s.killed.Load() {
+			// ended by the watchdog at its CPU limit: a timeout, not an error
+			return "(error \"solver died\")"
+		}
 		s.Errors = append(s.Errors, "read: "+err.Error())
 		return "(error \"solver died\")"
 	}
@@ -496,6 +507,7 @@ func (s *Solver) checkOnce(query string, cpuBudgetMs int) (Result, time.Duration
 					if f := os.Getenv("BMV_DUMPQ"); f != "" {
 						os.WriteFile(f, []byte(query), 0o644)
 					}
+					s.killed.Store(true)
 					proc.Kill()
 					return
 				}
@@ -516,7 +528,9 @@ func (s *Solver) checkOnce(query string, cpuBudgetMs int) (Result, time.Duration
 		case line == "unknown":
 			res = Unknown
 		case strings.HasPrefix(line, "(error"):
-			s.Errors = append(s.Errors, line)
+			if !(s.dead && s.killed.Load()) {
+				s.Errors = append(s.Errors, line)
+			}
 			if s.dead {
 				s.Seconds += time.Since(t0).Seconds()
 				return Unknown, 0, time.Since(t0)
